@@ -119,6 +119,11 @@ def server_call_spec(kind: str, mid: int, code: int, v: int, bad: bool = False) 
         big = b"\x5a" * 70000
         return ("search_result_entry", {"message_id": mid, "object_name": "cn=big", "attributes": [s.PartialAttribute("jpegPhoto", [big])]},
                 {"kind": "searchResEntry", "id": mid, "controls": [], "name": "cn=big", "attributes": [("jpegPhoto", [big])]}, None)
+    if kind == "entry" and v == 8:
+        # repeated values and a repeated attribute: every one of them is sent and received
+        vals = [b"u1", b"u2", b"u1", b"u1"]
+        return ("search_result_entry", {"message_id": mid, "object_name": "cn=e", "attributes": [s.PartialAttribute("member", vals), s.PartialAttribute("member", vals)]},
+                {"kind": "searchResEntry", "id": mid, "controls": [], "name": "cn=e", "attributes": [("member", vals), ("member", vals)]}, None)
     if kind == "entry":
         attrs = [s.PartialAttribute("cn", [b"v1", b"v2"])] if v % 2 else []
         return ("search_result_entry", {"message_id": mid, "object_name": "cn=e", "attributes": attrs},
@@ -154,7 +159,7 @@ def peer_message(kind: str, mid: int, code: int, v: int, name: t.Optional[str] =
     elif kind == "searchRequest":
         base.update(base="dc=x", scope=2, deref=0, size=0, time=0, typesOnly=False, filter=("present", "cn"), attributes=[])
     elif kind == "searchResEntry":
-        base.update(name="cn=e", attributes=[("cn", [b"v"])])
+        base.update(name="cn=e", attributes=[("cn", [b"v"])] if v != 8 else [("m", [b"a", b"b", b"a"]), ("m", [b"a", b"b", b"a"])])
     elif kind == "searchResDone":
         base.update(result=res)
     elif kind == "searchResRef":
@@ -213,7 +218,7 @@ def client_steps(max_steps: int = 40, drains: bool = False, closers: bool = True
     resp_kinds = st.sampled_from(["bindResponse", "searchResEntry", "searchResRef", "searchResDone", "extendedResp"])
     req_kinds = st.sampled_from(["bindRequest", "searchRequest", "extendedReq", "unbindRequest"])
     good_ids = id_refs(["open", "open", "search", "single"])
-    bad_ids = id_refs(["completed", "completed", "never", "zero", "neg", "alias"])
+    bad_ids = id_refs(["completed", "last-completed", "last-completed", "never", "zero", "neg", "alias"])
     auto = st.fixed_dictionaries({"kind": st.just("auto"), "final": st.booleans(), "id": good_ids, "code": _CODES, "v": _V,
                                   "name": st.none(), "strict": st.just(True)})
     mismatch = st.fixed_dictionaries({"kind": resp_kinds, "id": good_ids, "code": _CODES, "v": _V, "name": st.none(), "strict": st.just(True)})
@@ -227,15 +232,34 @@ def client_steps(max_steps: int = 40, drains: bool = False, closers: bool = True
     recv_bad = st.fixed_dictionaries({"op": st.just("recv"), "msgs": st.lists(_weighted([(2, auto), (1, msg_bad)]), min_size=1, max_size=3)})
     garbage = st.fixed_dictionaries({"op": st.just("garbage"), "data": st.sampled_from(GARBAGE)})
     unbind = st.just({"op": "call", "what": "unbind", "v": 0})
+
+    # scripted deliveries: the whole life of ONE operation inside a single receive() call, with a message for the id that
+    # an earlier message of the same delivery has just completed (ids are resolved message by message)
+    def msg(kind: str, idref: t.Tuple[t.Any, ...], final: bool = False, v: int = 0) -> t.Dict[str, t.Any]:
+        return {"kind": kind, "final": final, "id": idref, "code": 0, "v": v, "name": None, "strict": True}
+
+    def scripts(k: int) -> t.List[t.List[t.Dict[str, t.Any]]]:
+        S, L = ("search", k), ("last-completed", 0)
+        return [
+            [msg("auto", S, v=0), msg("auto", S, True), msg("searchResEntry", L)],
+            [msg("auto", S, v=1), msg("auto", S, True), msg("searchResRef", L)],
+            [msg("auto", S, True), msg("searchResDone", L)],
+            [msg("auto", S, v=0), msg("auto", S, v=0), msg("auto", S, True), msg("searchResEntry", L), msg("auto", ("open", k))],
+            [msg("auto", ("single", k), True), msg("extendedResp", L)],
+            [msg("auto", ("single", k), True), msg("bindResponse", L)],
+            [msg("auto", ("open", k), True), msg("auto", ("open", k + 1), True), msg("searchResEntry", L)],
+        ]
+
+    recv_script = st.tuples(st.integers(0, 5), st.integers(0, 6)).map(lambda kn: {"op": "recv", "msgs": scripts(kn[0])[kn[1]]})
     keep = [(8, call), (9, recv_good)]
     if drains:
         keep.append((7, drain_step()))
-    close = [(1, unbind), (1, garbage), (2, recv_bad)]
-    body = _sized_list(_weighted(keep + ([(1, st.one_of(unbind, garbage, recv_bad, recv_bad))] if closers else [])), max_steps)
+    close = [(1, unbind), (1, garbage), (2, recv_bad), (2, recv_script)]
+    body = _sized_list(_weighted(keep + ([(1, st.one_of(unbind, garbage, recv_bad, recv_bad, recv_script))] if closers else [])), max_steps)
     if not closers:
         return body
     tail = st.lists(_weighted(keep + close * 3), max_size=6)
-    closer = st.lists(st.one_of(unbind, garbage, recv_bad), max_size=1)
+    closer = st.lists(st.one_of(unbind, garbage, recv_bad, recv_script), max_size=1)
     return st.tuples(body, closer, tail).map(lambda x: x[0] + x[1] + x[2])
 
 
@@ -252,7 +276,7 @@ def server_steps(max_steps: int = 40, drains: bool = False, closers: bool = True
     )
     recv_good = st.fixed_dictionaries({"op": st.just("recv"), "msgs": st.lists(msg_ok, min_size=1, max_size=3)})
     recv_bad = st.fixed_dictionaries({"op": st.just("recv"), "msgs": st.lists(_weighted([(2, msg_ok), (1, msg_bad)]), min_size=1, max_size=3)})
-    any_ids = id_refs(["open", "open", "open", "open", "search", "single", "completed", "completed", "never", "zero", "alias", "alias"])
+    any_ids = id_refs(["open", "open", "open", "open", "search", "single", "completed", "last-completed", "last-completed", "never", "zero", "alias", "alias"])
     respond_auto = st.fixed_dictionaries({"op": st.just("respond"), "kind": st.just("auto"), "final": st.booleans(),
                                           "id": id_refs(["open", "open", "search", "single"]), "code": _CODES, "v": _V, "bad": _BAD})
     respond_any = st.fixed_dictionaries({"op": st.just("respond"), "kind": st.sampled_from(["bind", "entry", "ref", "done", "extended"]),
